@@ -45,7 +45,17 @@ type c25After struct {
 	Kind    string `json:"kind"` // do domulti receive hooks oninval close release
 }
 
+// c25Race: the session's last call is a retryable (read-only) command that the server answers with -LOADING for its
+// first Loading attempts, so the call sits in the client's retry back-off (RetryDelay) between attempts; it runs in its
+// own goroutine while the session's goroutine releases / closes the handle ReleaseAfterUs after the call started.
+type c25Race struct {
+	Kind           string `json:"kind"`    // do | domulti
+	Loading        int    `json:"loading"` // attempts answered -LOADING
+	ReleaseAfterUs int    `json:"release_after_us"`
+}
+
 type c25Session struct {
+	Race    *c25Race   `json:"race,omitempty"`
 	StartUs int        `json:"start_us"`
 	Via     string     `json:"via"` // dedicated | dedicate
 	Steps   []c25Step  `json:"steps"`
@@ -69,6 +79,7 @@ type c25Ext struct {
 }
 
 type c25Plan struct {
+	RetryDelayUs int          `json:"retry_delay_us,omitempty"` // RetryDelay returns this for the first 8 attempts, then gives up
 	PoolSize     int          `json:"pool_size"`
 	DisableCache bool         `json:"disable_cache"`
 	Sessions     []c25Session `json:"sessions"`
@@ -128,6 +139,20 @@ func c25SessionCmds(si int, s c25Session) (out []c25Cmd) {
 		out = append(out, c25Cmd{Argv: []string{"MULTI"}, Step: n, Role: "multi"}, c25Cmd{Argv: []string{"SET", c25Tag(si) + ":k0", "abandoned"}, Step: n, Role: "set"})
 	case "watch":
 		out = append(out, c25Cmd{Argv: []string{"WATCH", c25Tag(si) + ":k0"}, Step: n, Role: "watch"})
+	}
+	return
+}
+
+func c25RaceReply(si, k int) resp.Value { return resp.Bulk(fmt.Sprintf("race-%d-%d", si, k)) }
+
+// c25RaceCmds lists the command(s) of the session's racing call; the first one is answered -LOADING Race.Loading times.
+func c25RaceCmds(si int, s c25Session) (out [][]string) {
+	if s.Race == nil {
+		return nil
+	}
+	out = append(out, []string{"VREPLY", c25Tag(si) + "-race", string(resp.Append(nil, c25RaceReply(si, 0))), "0"})
+	if s.Race.Kind == "domulti" {
+		out = append(out, []string{"VREPLY", c25Tag(si) + "-race-b", string(resp.Append(nil, c25RaceReply(si, 1))), "0"})
 	}
 	return
 }
@@ -215,6 +240,10 @@ type c25SessObs struct {
 	ChansClosed  int
 	After        []c25AfterObs
 	Done         bool
+	RaceStartUs  int64
+	RaceEndUs    int64
+	RaceResults  []rueidis.RedisResult
+	RaceDone     bool
 }
 
 type c25TrafficObs struct {
@@ -271,18 +300,35 @@ func c25RunPlan(t *testing.T, plan c25Plan) (run c25Run) {
 			}
 			return 0
 		}
+		raceArrivals := map[int]int{}
 		srv.Hooks.Fault = func(c *fakeredis.Conn, req int, argv []string) fakeredis.Fault {
 			st := c.Snapshot() // the state the command finds
 			mu.Lock()
 			run.Snaps[[2]int{c.ID, req}] = st
+			loading := false
+			if len(argv) > 1 && argv[0] == "VREPLY" && strings.HasSuffix(argv[1], "-race") {
+				if si := c25SessionOf(argv, len(plan.Sessions)); si >= 0 && plan.Sessions[si].Race != nil {
+					loading = raceArrivals[si] < plan.Sessions[si].Race.Loading
+					raceArrivals[si]++
+				}
+			}
 			mu.Unlock()
+			if loading {
+				return fakeredis.Fault{Kind: fakeredis.ErrorReply, Err: "LOADING Redis is loading the dataset in memory"}
+			}
 			return fakeredis.Fault{}
 		}
 		opt := sim.Option(w, "127.0.0.1:6379")
 		tracker := &c29Tracker{w: w, srv: srv, CloseUs: map[int]int64{}}
 		opt.DialCtxFn = tracker.dial
 		opt.ForceSingleClient = true
-		opt.DisableRetry = true
+		// retries are on: only read-only commands that fail are retried, which in these plans are the racing calls
+		opt.RetryDelay = func(attempts int, _ rueidis.Completed, _ error) time.Duration {
+			if attempts > 8 {
+				return -1
+			}
+			return time.Duration(plan.RetryDelayUs) * time.Microsecond
+		}
 		opt.PipelineMultiplex = -1
 		opt.BlockingPoolSize = plan.PoolSize
 		opt.DisableCache = plan.DisableCache
@@ -404,6 +450,27 @@ func c25RunPlan(t *testing.T, plan c25Plan) (run c25Run) {
 						issue(context.Background(), 1)
 					case "watch":
 						issue(context.Background(), 1)
+					}
+					if s.Race != nil {
+						rcmds := c25RaceCmds(si, s)
+						wg.Add(1)
+						go func() {
+							defer wg.Done()
+							ctx := context.Background()
+							start := w.Since()
+							var rs []rueidis.RedisResult
+							mkro := func(a []string) rueidis.Completed { return dc.B().Arbitrary(a[0]).Args(a[1:]...).ReadOnly() }
+							if len(rcmds) == 1 {
+								rs = []rueidis.RedisResult{dc.Do(ctx, mkro(rcmds[0]))}
+							} else {
+								rs = dc.DoMulti(ctx, mkro(rcmds[0]), mkro(rcmds[1]))
+							}
+							mu.Lock()
+							o.RaceStartUs, o.RaceEndUs, o.RaceResults, o.RaceDone = start, w.Since(), rs, true
+							mu.Unlock()
+						}()
+						// the session's goroutine goes on to release / close the handle while that call is under way
+						time.Sleep(time.Duration(s.Race.ReleaseAfterUs) * time.Microsecond)
 					}
 				}
 				mu.Lock()
@@ -598,6 +665,7 @@ func c25RunPlan(t *testing.T, plan c25Plan) (run c25Run) {
 
 func genC25Plan(rt *rapid.T, c *stat.Collector) c25Plan {
 	p := c25Plan{PoolSize: rapid.IntRange(1, 3).Draw(rt, "poolSize"), DisableCache: rapid.Bool().Draw(rt, "disableCache")}
+	p.RetryDelayUs = rapid.SampledFrom([]int{200, 1000, 3000}).Draw(rt, "retryDelay")
 	ns := rapid.IntRange(1, 3).Draw(rt, "sessions")
 	for si := 0; si < ns; si++ {
 		s := c25Session{StartUs: rapid.SampledFrom([]int{0, 0, 200, 1000, 3000, 6000}).Draw(rt, "start"), Via: rapid.SampledFrom([]string{"dedicated", "dedicate"}).Draw(rt, "via")}
@@ -638,6 +706,14 @@ func genC25Plan(rt *rapid.T, c *stat.Collector) c25Plan {
 		// such state leaks to the next holder (its first command is answered QUEUED, or its EXEC aborts), and after an
 		// abandoned MULTI on a pipelined connection the clean-up UNSUBSCRIBE makes the reader goroutine panic. Noted in
 		// DESIGN.md 10.2 as observations, not findings.
+		if rapid.IntRange(0, 2).Draw(rt, "race") == 0 {
+			// The racing call's attempts leave at +0, +D, +2D, ... (D = RetryDelay) while the server answers LOADING; the
+			// release instant is an odd multiple of D/2, i.e. never the instant of an attempt: inside a back-off, or after
+			// the call has got its reply.
+			r := &c25Race{Kind: rapid.SampledFrom([]string{"do", "do", "domulti"}).Draw(rt, "raceKind"), Loading: rapid.IntRange(1, 3).Draw(rt, "raceLoading")}
+			r.ReleaseAfterUs = (2*rapid.IntRange(0, r.Loading+1).Draw(rt, "raceReleaseHalf") + 1) * p.RetryDelayUs / 2
+			s.Race = r
+		}
 		na := rapid.IntRange(0, 3).Draw(rt, "after")
 		for k := 0; k < na; k++ {
 			s.After = append(s.After, c25After{PauseUs: rapid.SampledFrom([]int{0, 100, 1500}).Draw(rt, "afterPause"),
@@ -791,6 +867,14 @@ func c25Check(c *stat.Collector, rt stat.Fataler, plan c25Plan, run c25Run) (nt 
 			r := &rc{e: e, replySeq: -1}
 			perConn[e.Conn] = append(perConn[e.Conn], r)
 			byReq[[2]int{e.Conn, e.Req}] = r
+			// nothing that was issued through a dedicated handle arrives after that handle's release / Close has returned
+			if si := c25SessionOf(e.Argv, ns); si >= 0 && run.Sess[si].Done && e.At > run.Sess[si].ReleasedUs {
+				how := "a call on the released handle was not rejected"
+				if strings.Contains(e.Argv[1], "-race") {
+					how = fmt.Sprintf("the call had started at +%dus, got -LOADING and was waiting in its retry back-off (RetryDelay %dus) when the handle was released; its next attempt must be rejected with ErrDedicatedClientRecycled, not sent on a connection that is back in the pool", run.Sess[si].RaceStartUs, plan.RetryDelayUs)
+				}
+				fail("C25.released-handle-sends-nothing", fmt.Sprintf("connection c%d received %q of session %d at +%dus, after that session's release/Close had returned at +%dus: %s", e.Conn, trunc(e.Argv), si, e.At, run.Sess[si].ReleasedUs, how))
+			}
 		case "reply":
 			if r := byReq[[2]int{e.Conn, e.Req}]; r != nil && r.replySeq < 0 {
 				r.replySeq = e.Seq
@@ -802,16 +886,17 @@ func c25Check(c *stat.Collector, rt stat.Fataler, plan c25Plan, run c25Run) (nt 
 		sessCmds[si] = c25SessionCmds(si, s)
 	}
 	type block struct {
-		kind       string // session | blocking
-		si         int
-		conn       int
-		first, n   int   // index into perConn[conn], number of commands found
-		firstSeq   int64 // recv seq of the first command
-		lastSeq    int64
-		firstAtUs  int64
-		complete   bool
-		truncated  bool
-		trafficIdx int
+		kind         string // session | blocking
+		si           int
+		conn         int
+		first, n     int   // index into perConn[conn], number of commands found
+		firstSeq     int64 // recv seq of the first command
+		lastSeq      int64
+		firstAtUs    int64
+		complete     bool
+		truncated    bool
+		trafficIdx   int
+		raceAttempts int
 	}
 	var blocks []*block
 	sessBlock := make([]*block, ns)
@@ -870,6 +955,20 @@ func c25Check(c *stat.Collector, rt stat.Fataler, plan c25Plan, run c25Run) (nt 
 				sessBlock[si] = b
 				blocks = append(blocks, b)
 				i += b.n
+				// the attempts of the session's racing call follow (each attempt sends the call's commands again)
+				if rcs := c25RaceCmds(si, plan.Sessions[si]); b.complete && len(rcs) > 0 {
+				attempts:
+					for {
+						for k, want := range rcs {
+							if i+k >= len(list) || strings.Join(list[i+k].e.Argv, "\x00") != strings.Join(want, "\x00") {
+								break attempts
+							}
+						}
+						i += len(rcs)
+						b.raceAttempts++
+						b.lastSeq = list[i-1].e.Seq
+					}
+				}
 			case a[0] == "VREPLY" && strings.HasPrefix(a[1], "b"):
 				ti, _ := strconv.Atoi(strings.SplitN(a[1][1:], "-", 2)[0])
 				blocks = append(blocks, &block{kind: "blocking", si: -1, conn: id, first: i, n: 1, firstSeq: list[i].e.Seq, lastSeq: list[i].e.Seq, firstAtUs: list[i].e.At, complete: true, trafficIdx: ti})
@@ -1054,7 +1153,7 @@ func c25Check(c *stat.Collector, rt stat.Fataler, plan c25Plan, run c25Run) (nt 
 	}
 
 	// ---- per session: replies, released handle, hooks, state at the next hand-out
-	blockingDuringSession, useAfterRelease := false, false
+	blockingDuringSession, useAfterRelease, releasedInBackoff := false, false, false
 	for si, s := range plan.Sessions {
 		o := run.Sess[si]
 		b := sessBlock[si]
@@ -1156,6 +1255,44 @@ func c25Check(c *stat.Collector, rt stat.Fataler, plan c25Plan, run c25Run) (nt 
 					if !errors.Is(err, rueidis.ErrDedicatedClientRecycled) {
 						fail("C25.recycled-handle-rejects", fmt.Sprintf("%s returned %v, want ErrDedicatedClientRecycled", at, err))
 					}
+				}
+			}
+		}
+		// the racing call: released while it waits between two attempts, or after it has completed
+		if s.Race != nil && o.RaceDone {
+			class["retry-race-"+s.Race.Kind] = true
+			lastAttemptUs := o.RaceStartUs + int64(s.Race.Loading)*int64(plan.RetryDelayUs) // the attempt that gets the real reply
+			inBackoff := o.ReleaseUs < lastAttemptUs
+			if inBackoff {
+				class["released-during-retry-backoff"] = true
+				releasedInBackoff = true
+			} else {
+				class["released-after-racing-call-completed"] = true
+			}
+			if b.raceAttempts > 1 {
+				class["racing-call-retried"] = true
+			}
+			for k, r := range o.RaceResults {
+				at := fmt.Sprintf("%s racing %s position %d (started +%dus, %d x LOADING, RetryDelay %dus, handle released at +%dus)", where, s.Race.Kind, k, o.RaceStartUs, s.Race.Loading, plan.RetryDelayUs, o.ReleaseUs)
+				err := r.Error()
+				var re *rueidis.RedisError
+				switch {
+				case err == nil:
+					if merr := sim.MatchResult(r, c25RaceReply(si, k)); merr != nil {
+						fail("C25.own-replies", fmt.Sprintf("%s: %v", at, merr))
+					}
+					class["racing-call-completed"] = true
+				case excused(b):
+				case !inBackoff:
+					fail("C25.own-replies", fmt.Sprintf("%s: returned %v although every attempt preceded the release", at, err))
+				case errors.Is(err, rueidis.ErrDedicatedClientRecycled):
+					class["racing-call-rejected-recycled"] = true
+				case errors.As(err, &re) && re.IsLoading():
+					class["racing-call-returned-loading"] = true
+				case s.End != "release":
+					class["racing-call-failed-by-close"] = true // Close hit the wire while an attempt was under way
+				default:
+					fail("C25.recycled-handle-rejects", fmt.Sprintf("%s: returned %v; a call overtaken by the release returns ErrDedicatedClientRecycled or the error of its last attempt", at, err))
 				}
 			}
 		}
@@ -1307,11 +1444,11 @@ func c25Check(c *stat.Collector, rt stat.Fataler, plan c25Plan, run c25Run) (nt 
 	if useAfterRelease {
 		class["use-after-release"] = true
 	}
-	return blockingDuringSession || useAfterRelease, nil
+	return blockingDuringSession || useAfterRelease || releasedInBackoff, nil
 }
 
 func TestVerif_C25_Dedicated(t *testing.T) {
-	c := stat.For("C25", "dedicated-"+queueLabel()).Rule("timed plans in a synctest bubble, single client, BlockingPoolSize 1-3: 1-3 dedicated sessions (Dedicated(fn) or Dedicate(); steps from {tagged VREPLY, WATCH, GET, MULTI/SET/EXEC via Do or one DoMulti, SetPubSubHooks+SUBSCRIBE/PSUBSCRIBE/SSUBSCRIBE, Receive with a deadline, SetOnInvalidations+CLIENT TRACKING ON+GET}, generated pauses, synchronous or pipelined mode, optionally leaving a MULTI or WATCH open; ended by release, Close or Close twice) interleaved with shared-pipeline Do/DoMulti, blocking-tagged commands with server latency (same pool), external SETs of the sessions' keys and publishes; afterwards calls on the released handle {Do, DoMulti, Receive, SetPubSubHooks, SetOnInvalidations, Close, release again}; oracle: per-connection server log (each session's commands are one contiguous block on one pool connection, only clean-up commands around it, nothing of a released handle arrives), reference model of keys/WATCH/MULTI replayed over the log for every reply (EXEC aborts only for the session's own WATCH), ErrDedicatedClientRecycled from every call after release, handlers silent and channels closed after release, fake's session state at the next hand-out of the connection (no subscriptions, tracking off, no MULTI/WATCH), pool bound, no hang; non-trivial = a blocking command served while a session is open, or a call on a released handle")
+	c := stat.For("C25", "dedicated-"+queueLabel()).Rule("timed plans in a synctest bubble, single client, BlockingPoolSize 1-3: 1-3 dedicated sessions (Dedicated(fn) or Dedicate(); steps from {tagged VREPLY, WATCH, GET, MULTI/SET/EXEC via Do or one DoMulti, SetPubSubHooks+SUBSCRIBE/PSUBSCRIBE/SSUBSCRIBE, Receive with a deadline, SetOnInvalidations+CLIENT TRACKING ON+GET}, generated pauses, synchronous or pipelined mode, optionally ending with a racing call: a read-only Do/DoMulti answered -LOADING for its first 1-3 attempts with a generated RetryDelay, running in its own goroutine while the session is released/closed at an instant inside a back-off or after the call; ended by release, Close or Close twice) interleaved with shared-pipeline Do/DoMulti, blocking-tagged commands with server latency (same pool), external SETs of the sessions' keys and publishes; afterwards calls on the released handle {Do, DoMulti, Receive, SetPubSubHooks, SetOnInvalidations, Close, release again}; oracle: per-connection server log (each session's commands are one contiguous block on one pool connection, only clean-up commands around it, nothing of a released handle arrives: no command issued through a handle is received later than its release/Close returned), reference model of keys/WATCH/MULTI replayed over the log for every reply (EXEC aborts only for the session's own WATCH), ErrDedicatedClientRecycled from every call after release, handlers silent and channels closed after release, fake's session state at the next hand-out of the connection (no subscriptions, tracking off, no MULTI/WATCH), pool bound, no hang; non-trivial = a blocking command served while a session is open, or a call on a released handle, or a release during a retry back-off")
 	defer c.Flush()
 	if p := os.Getenv("VERIF_REPLAY_JSON"); p != "" {
 		var plan c25Plan
